@@ -29,10 +29,10 @@ def main():
         for p in PROPS:
             rc, out = sh("./check %s --repo %s" % (p, wt), cwd="/verif")
             if rc != 0:
-                fired[p] = sorted(set(re.findall(r"instance: (.*)", out))) or ["(crash) " + out.strip()[-200:]]
+                fired[p] = sorted(set(re.findall(r"instance: (.*)", out))) or ["(crash) " + out.strip()[-160:].replace("\n", " ")]
         sh("git checkout -q -- .", cwd=wt)
         total[d] = fired
-        print("%s: %s" % (d.rsplit("/", 1)[-1], "silent" if not fired else "ALARM " + str({k: v[:3] for k, v in fired.items()})), flush=True)
+        print("%s: %s" % (d.rsplit("/", 1)[-1], "silent" if not fired else "ALARM " + str({k: v[:3] for k, v in fired.items()})[:600]), flush=True)
     n = sum(1 for v in total.values() if v)
     print("%d diffs, %d with alarms" % (len(total), n))
 
